@@ -193,17 +193,9 @@ class WeakForms(_Simu):
         v = results.get("v", np.zeros_like(u))
         a = results.get("a", np.zeros_like(u))
 
-        if self.algo == AlgoType.elliptic:
-            self._Set_solutions(self.problemType, u)
-
-        elif self.algo == AlgoType.parabolic:
-            self._Set_solutions(self.problemType, u, v)
-
-        elif self.algo in AlgoType.Get_Hyperbolic_Types():
-            self._Set_solutions(self.problemType, u, v, a)
-
-        else:
-            raise TypeError("Unknown algo type.")
+        # every field is set, whatever the algorithm selected now: a rate left in place would
+        # belong to another iteration than u
+        self._Set_solutions(self.problemType, u, v, a)
 
         return results
 
